@@ -27,8 +27,11 @@ func init() {
 			cliHistories(c, "C11", cliOpts{MsgSize: []int{1024}, RTO: 1000000}, alpha, depth-2, eps, "Hrto1ms")
 			// time scales: early ticks (the collector fires between deadlines), and RTOs of 2 minutes, 100 and 250 years
 			// (deadlines beyond what a 64-bit nanosecond count since 1970 can hold)
-			slow := []cliEv{{K: "start", I: 0}, {K: "tick", Arg: 4}, {K: "tick", Arg: 0}, {K: "tick", Arg: 1}, {K: "resp", I: 0}, {K: "failwrite"}}
+			slow := []cliEv{{K: "start", I: 0}, {K: "tick", Arg: 4}, {K: "tick", Arg: 5}, {K: "tick", Arg: 0}, {K: "tick", Arg: 1}, {K: "resp", I: 0}, {K: "failwrite"}, {K: "failwrite", Arg: 1}}
 			cliHistories(c, "C11", cliOpts{MsgSize: []int{2052}}, slow, depth, eps, "Hearly")
+			// a clock that does not start on a round number (deadlines then fall between the ticks of any coarser grid)
+			cliHistories(c, "C11", cliOpts{ClockOffset: 2300001}, slow, depth-1, eps, "Hoffset")
+			cliHistories(c, "C11", cliOpts{ClockOffset: 4999999, RTO: int64(100 * time.Millisecond)}, slow, depth-1, eps, "Hoffset2")
 			for _, rto := range []time.Duration{2 * time.Minute, 100 * 365 * 24 * time.Hour, 250 * 365 * 24 * time.Hour} {
 				cliHistories(c, "C11", cliOpts{RTO: int64(rto)}, slow, depth-2, eps, "Hslow")
 				cliHistories(c, "C11", cliOpts{RTO: int64(rto), NoRetransmit: true}, slow, depth-2, eps, "Hslow-nr")
@@ -44,7 +47,15 @@ func init() {
 						full = append(full, tickAt, tickAfter)
 					}
 					short := []cliEv{{K: "start", I: 0}, {K: "overwrite", I: 0}, tickAfter, {K: "setrto", Arg: 1}, tickAfter, tickAt, {K: "resp", I: 0}, tickAfter}
-					for _, h := range [][]cliEv{full, short} {
+					// every re-transmission runs into a write timeout, 14 deadlines in a row: the first failure ends the transaction
+					timeouts := []cliEv{{K: "start", I: 0}}
+					// from the third re-transmission on every write times out
+					timeouts3 := []cliEv{{K: "start", I: 0}, tickAfter, tickAfter}
+					for i := 0; i < 14; i++ {
+						timeouts = append(timeouts, cliEv{K: "failwrite", Arg: 1}, tickAfter)
+						timeouts3 = append(timeouts3, cliEv{K: "failwrite", Arg: 1}, tickAfter)
+					}
+					for _, h := range [][]cliEv{full, short, timeouts, timeouts3} {
 						item++
 						if !c.Mine(item) {
 							continue
@@ -95,7 +106,11 @@ func init() {
 			cliHistories(c, "C12", cliOpts{PoolFanout: true}, alpha, depth-2, eps, "H")
 			cliHistories(c, "C12", cliOpts{PoolFanout: true}, core, depth-1, eps, "Hcore-nofb")
 			// datagrams whose id is not in flight but collides with A under a digest (CRC-32, xor-fold, byte multiset)
-			twins := []cliEv{{K: "start", I: 0}, {K: "resp", I: 0}, {K: "unknown", I: 5}, {K: "unknown", I: 6}, {K: "unknown", I: 7}, {K: "tick", Arg: 1}}
+			twins := []cliEv{{K: "start", I: 0}, {K: "resp", I: 0}, {K: "resp", I: 0, Arg: 5}, {K: "unknown", I: 5}, {K: "unknown", I: 6}, {K: "unknown", I: 7}, {K: "tick", Arg: 1}}
+			// datagrams with bytes behind the message, then responses that fill the read buffer: what one datagram
+			// leaves behind must not cost the next one anything
+			erosion := []cliEv{{K: "start", I: 0}, {K: "start", I: 1}, {K: "resp", I: 0, Arg: 4}, {K: "resp", I: 1, Arg: 4}, {K: "resp", I: 0, Arg: 1}, {K: "resp", I: 1, Arg: 1}}
+			cliHistories(c, "C12", cliOpts{Fallback: true}, erosion, depth+1, eps, "Herosion")
 			cliHistories(c, "C12", cliOpts{Fallback: true}, twins, depth, eps, "Htwin")
 			cliHistories(c, "C12", cliOpts{}, twins, depth-1, eps, "Htwin-nofb")
 			// long time scales: with an RTO of 2 minutes (and of 100 years, without re-transmission) a response that
@@ -153,12 +168,13 @@ func init() {
 			}
 			alpha := []cliEv{
 				{K: "start", I: 0}, {K: "do", I: 1}, {K: "resp", I: 0}, {K: "resp", I: 1},
-				{K: "tick", Arg: 1}, {K: "failwrite"}, {K: "readerr", Arg: 1}, {K: "readerr", Arg: 3}, {K: "close"},
+				{K: "tick", Arg: 1}, {K: "failwrite"}, {K: "readerr", Arg: 1}, {K: "readerr", Arg: 2}, {K: "readerr", Arg: 3}, {K: "close"},
 			}
 			optSets := []cliOpts{
 				{}, {NoConnClose: true}, {Fallback: true}, {NoRetransmit: true}, {ConnCloseErr: true}, {AgentCloseErr: true},
 				{ConnCloseErr: true, AgentCloseErr: true}, {NoConnClose: true, ConnCloseErr: true, AgentCloseErr: true}, {RTO: 1000000, Fallback: true, NoConnClose: true},
 				{Reentrant: true}, {Reentrant: true, NoRetransmit: true},
+				{ConnCloseErr: true, AgentCloseErr: true, SentinelErrs: true}, {AgentCloseErr: true, SentinelErrs: true, NoConnClose: true},
 			}
 			for i, o := range optSets {
 				d := depth
